@@ -108,6 +108,8 @@ def py_val(j: Any) -> Any:
             return frozenset(py_val(x) for x in j["F"])
         if "plain" in j:
             return Plain(j["plain"])
+        if "anyeq" in j:
+            return AlwaysEq(j["anyeq"])
         if "f" in j:
             return float(j["f"])        # an integral float (exact): loop states far from the unit scale
     raise ValueError(f"bad value encoding: {j!r}")
@@ -121,6 +123,25 @@ class Plain:
 
     def __reduce__(self) -> tuple:
         return (Plain, (self.n,))
+
+
+class AlwaysEq:
+    """A value that compares EQUAL to everything (`unittest.mock.ANY`, wildcard matchers): still a value like any other."""
+
+    def __init__(self, n: Any) -> None:
+        self.n = n
+
+    def __eq__(self, other: Any) -> bool:
+        return True
+
+    def __ne__(self, other: Any) -> bool:
+        return False
+
+    def __hash__(self) -> int:
+        return 0
+
+    def __repr__(self) -> str:
+        return f"AlwaysEq({self.n!r})"
 
 
 class LazyBox:
@@ -148,6 +169,8 @@ def enc_val(v: Any) -> Any:
     """Python value -> canonical JSON value encoding (the inverse of py_val)."""
     if type(v) is LazyBox:
         return {"box": enc_val(v.v)}
+    if type(v) is AlwaysEq:
+        return {"anyeq": v.n}
     if v is None or isinstance(v, (bool, int, str)):
         return v
     if v is _EMIT_SENTINEL:
